@@ -25,7 +25,8 @@ RULE = ("Part A (single thread, schedule enumeration): k in {2,3} live iterators
         "sys.monitoring LINE callback that yields the GIL with seeded probability on lines of the package. Oracle: the sequential "
         "results. Queries use filters with $ and @, nested filters, descendant segments and match/search with several patterns. "
         "Non-trivial: schedule case with >=2 non-empty iterators that actually alternate / thread run with >=1 observed switch inside "
-        "package code; distinct by (case, schedule) resp. run. Evidence reports schedules executed, thread switches and switch sites.")
+        "package code; distinct by (case, schedule) resp. run. Evidence reports schedules executed, thread switches and switch sites."
+        " In the thread runs some compiled query objects are shared by all threads and evaluated at the same time on larger documents, and bursts of distinct new query texts are compiled concurrently.")
 ASSUMPTIONS = ["single-threaded generators can only switch at next(): next()-level schedules are all single-thread interleavings",
                "two threads never run inside the same generator object (Python forbids it; that would be a harness artefact)"]
 DECIDING_MONITORS = ["M-sched", "M-thread-run"]
